@@ -565,7 +565,7 @@ pub fn run(ctx: &mut Ctx) {
     ctx.extra("small_archives", json!(small.iter().map(|(n, a)| json!({"name": n, "len": a.len()})).collect::<Vec<_>>()));
 
     // ---- (c) structure-aware mutations
-    let nmut = if miri { 200 } else { ctx.n(200_000, 4_000_000) };
+    let nmut = if miri { 200 } else { ctx.n(200_000, 12_000_000) };
     let per_case = 50u64;
     for blk in 0..nmut / per_case {
         if ctx.mine(case) {
@@ -595,7 +595,7 @@ pub fn run(ctx: &mut Ctx) {
         case += 1;
     }
     // splices of two valid archives / random garbage
-    let nsplice = if miri { 0 } else { ctx.n(2_000, 40_000) };
+    let nsplice = if miri { 0 } else { ctx.n(2_000, 120_000) };
     for i in 0..nsplice {
         if ctx.mine(case) {
             ctx.begin(case);
